@@ -49,6 +49,11 @@ CHECKS = {
     technique='stateless exploration of thread schedules of the real code under a controlled scheduler (CHESS-style iterative preemption bounding, bound 2; schedule points at lock operations, engine call/line trace events and session accesses to engine state) with a brute-force linearizability oracle',
     text='7 (quick) / 10 (thorough) harnesses of 2-4 real KmipSession threads with different identities and protocol versions, 1-2 requests each, share one real KmipEngine whose lock is replaced by a scheduler-aware re-entrant lock; only one thread runs at a time and every schedule with at most 2 preemptions (thorough: also with line-level schedule points, and bound 3 for two-thread harnesses) is executed. For each complete schedule the per-client responses and the final raw database must equal those of some serial order of the requests, consistent with each client\'s own order, executed on a fresh engine; deadlock, escaping exceptions and missing responses are violations; a failing schedule is replayed twice and must reproduce exactly before it is reported. Workloads force collisions on every per-request field of the shared engine (identity/owner, protocol version, attribute policy, ID placeholder, data session).',
     note='Preemption inside one source line and C-level races in SQLite/OpenSSL are not modelled; no race detector for Python exists in the image, so line-granular points on engine code are the substitute. The call event of the lock wrapper itself is not a separate point. os.urandom is a length-determined constant and time is frozen during a harness.'),
+ 'C09': dict(
+    category='fault_enumeration', design_ref='DESIGN.md 4/C09, 2.5',
+    technique='exhaustive crash-point enumeration of a fixed 26-operation workload on the real engine: every SQL statement/transaction boundary in process, and (thorough) a kill at every file-mutating syscall of the server process under strace fault injection; each survivor recovered by a fresh engine and compared with the reference states',
+    text='A workload covering every state-changing operation the property names (Create, CreateKeyPair, Register of all seven object types with names/groups/application info, DeriveKey, Activate, Revoke, Destroy from several states, Set/Modify/DeleteAttribute in 1.x and 2.0 form, a batch) runs on the real engine. Quick: at every begin / before+after write statement / commit / rollback event and at request-received / before-response / after-acknowledge instants (316 points) the database and journal files are copied, which is exactly what a kill -9 leaves. Thorough: additionally the workload runs as a subprocess that is SIGKILLed on entry to its N-th pwrite64/fsync/fdatasync/ftruncate/unlink, for every N an un-faulted run performs (634 points). Every survivor must be opened and listed by a fresh KmipEngine, every listed object must be readable, every object must have all rows of its class chain, and with a operations acknowledged the observable store must equal reference state S_a or S_a+1 of an uncrashed run.',
+    note='Process death, not power loss (page cache survives); torn single writes are outside the property. Values produced by OpenSSL RSA generation are compared by size only. Orphan per-class rows left by Destroy are unobservable and ignored. One fixed workload: crash points of operations or parameter shapes outside it are not covered.'),
 }
 
 NOT_YET = {}
